@@ -233,6 +233,14 @@ class Shared(object):
       k, s = self.refs[op[1]]
       self.refs[op[1]] = (k, None)
       del s
+    elif op[0] == 'Fault':
+      # the underlying connection of that sink dies (state Closed); the holders are still alive
+      k, s = self.refs[op[1]]
+      under = s.next_sink if hasattr(s, 'next_sink') and s.next_sink is not None else s
+      from scales.constants import ChannelState
+      under._state = ChannelState.Closed
+      self.nfaults = getattr(self, 'nfaults', 0) + 1
+      del s, under
     else:
       gc.collect()
 
@@ -244,6 +252,8 @@ class Shared(object):
     for i, (k, s) in enumerate(self.refs):
       if s is not None:
         ops.append(['Drop', i])
+        if getattr(self, 'nfaults', 0) < self.p.get('max_faults', 1) and k is not None:
+          ops.append(['Fault', i])
     ops.append(['GC'])
     return ops
 
@@ -255,7 +265,8 @@ class Shared(object):
         desc.append((k, None))
       else:
         desc.append((k, ids.setdefault(id(s), len(ids))))
-    return repr((tuple(desc), sorted(str(k) for k in self.prov._cache.keys()), self.nops if self.nops < 0 else 0))
+    return repr((tuple(desc), sorted(str(k) for k in self.prov._cache.keys()), getattr(self, 'nfaults', 0),
+                 tuple(s.state if s is not None else None for (k, s) in self.refs)))
 
 
 KINDS = {'singleton': Single, 'refcount': RefCount, 'shared': Shared}
